@@ -616,7 +616,7 @@ Definition compute_c08 (cfg : c8cfg) (hs : list N) (r : request) (ok : bool) : f
       if kind =? 0 then
         match assoc (rq_path r) (c8_files cfg) with
         | Some _ => (stream_fat (with_client_cache 3 [(B "vary", B "range")]), hs, [])
-        | None => (err_fat 404 None SP_FULL, hs, [])
+        | None => (err_fat 404 None SP_NONE, hs, [])     (* [default_error_response]: not stored *)
         end
       else (stream_fat (with_client_cache 3 [(B "content-type", B "text/plain"); (B "x-tag", B "S")]), hs, [])
   | None =>
